@@ -98,7 +98,7 @@ CLAIMED = {
                 tech="differential correspondence of both twins against one Coq model (+ small Coq lemmas on Edge comparison) and a twin compile/run probe", ref="DESIGN.md §5 C15"),
     "C17": dict(text="EXPLICITLY PARTIAL. Theorems (coq/props/C17.v) for every heap, every number of threads and every program over the micro-step model of the sync operations: a "
                      "thread holds at most one guard; no reachable configuration is deadlocked; programs without isolate never panic or poison a lock; connect/try_connect/query "
-                     "programs mirror as multisets at quiescence; the explicit-guard and atomic semantics agree. The full property (no panic, serialisable) is REFUTED in the "
+                     "programs mirror as multisets at quiescence; the explicit-guard and atomic semantics agree; single-connect threads whose connects form a forest over the adjacency lists are serialisable (unbounded; order of every list included). The full property (no panic, serialisable) is REFUTED in the "
                      "faithful model by six concrete schedules, each reproduced on real threads: mutations are two or more separately locked critical sections (D11) -> eight "
                      "known-finding classes. The check replays the model's schedules of ~1.1k small scenarios (thorough: all schedules of all 2-thread single-call scenarios on 2 "
                      "nodes) on real threads under a cooperative scheduler at lock points (hook gdsl_verif), plus free-running stress; a hang, deadlock, guard held at a lock point, "
